@@ -26,9 +26,33 @@ def case_from_replay(rp, insts):
     return None
 
 # ------------------------------------------------------------------------------------------- C01
+def dflt_C01(c, rep):
+    """a default-constructed mapping with all-static, non-empty extents: offsets in range and collision-free"""
+    xi = c.out('dflt')
+    if xi is None or not xi.startswith('ok e='): return
+    offs = [(a, F.val(x), xm) for (o, a), x, xm in zip(c.ops, c.impl, c.model) if o == 'dfltoff']
+    if not offs: return
+    d = dict(x.split('=') for x in xi[3:].split()); es = [int(v) for v in d['e'].split(',')]; span = int(d['span'])
+    kind, t, pat, sp = c.inst
+    ee = list(es)
+    if kind in ('lpad', 'rpad') and len(es) >= 2:
+        k = 0 if kind == 'lpad' else len(es) - 1; ee[k] = es[k] if sp in (None, 'D') else F.least_multiple(sp, es[k])
+    if C.prod([max(e, 1) for e in ee]) > C.hi(t): return      # not an admissible mapping (C14's matter)
+    rep.cov['evaluations'] += len(offs); rep.cov['traces_validated_against_impl'] += 1
+    diffs = [(a, x, xm) for (o, a), x, xm in zip(c.ops, c.impl, c.model) if o == 'dfltoff' and x != xm]
+    if diffs: rep.broke(payload(c, correspondence='map family, operator() of the default-constructed mapping', differing=diffs[:4]))
+    seen = {}
+    for a, o, _ in offs:
+        if o is None: rep.violation(payload(c, kind='no-defined-offset-on-default-constructed-mapping', idx=a)); return
+        if o < 0 or o >= span: rep.violation(payload(c, kind='offset-out-of-range (default-constructed mapping)', idx=a, offset=o, required_span_size=span)); return
+        if o in seen: rep.violation(payload(c, kind='collision (default-constructed mapping)', idx=[seen[o], a], offset=o)); return
+        seen[o] = a
+    rep.nontrivial(c.base() + ' dflt')
+
 def analyse_C01(cases, rep):
     fit_lines = []; plan = []
     for c in cases:
+        if c.stream == 'default-ctor': dflt_C01(c, rep); continue
         if not c.adm: continue
         r = len(c.ext); span = F.val(c.out('span')); offs = F.offsets_of(c)
         if not offs: continue
@@ -95,6 +119,10 @@ def analyse_C02(cases, rep):
                     else: want = None
                     if want is not None and C.prod([max(e, 1) for e in es]) <= C.hi(c.T) and got != want:
                         rep.violation(payload(c, kind='default-constructed-mapping-does-not-have-the-%s-strides-of-its-default-extents' % ('row-major' if c.kind != 'left' else 'column-major'), impl=xi, specified=want)); break
+                continue
+            if op == 'dfltoff':
+                rep.cov['evaluations'] += 1
+                if xi != xm: diffs.append(dict(op=op, arg=arg, impl=xi, model=xm))
                 continue
             if op not in ('off', 'stride', 'strides', 'stridesarr'): continue
             rep.cov['evaluations'] += 1
